@@ -194,17 +194,20 @@ func (p *ProofD) MergeProofP(proofP *ProofP, _ *gabikeys.PublicKey) {
 }
 
 func (p *ProofD) reconstructRangeProofStructures(pk *gabikeys.PublicKey) error {
-	p.cachedRangeStructures = make(map[int][]*rangeproof.ProofStructure)
+	// Only cache the structures once all of them could be extracted: a partially filled cache
+	// would make a later verification of this proof skip the range proofs that are missing from it.
+	structures := make(map[int][]*rangeproof.ProofStructure)
 	for index, proofs := range p.RangeProofs {
-		p.cachedRangeStructures[index] = []*rangeproof.ProofStructure{}
+		structures[index] = []*rangeproof.ProofStructure{}
 		for _, proof := range proofs {
 			s, err := proof.ExtractStructure(index, pk)
 			if err != nil {
 				return err
 			}
-			p.cachedRangeStructures[index] = append(p.cachedRangeStructures[index], s)
+			structures[index] = append(structures[index], s)
 		}
 	}
+	p.cachedRangeStructures = structures
 	return nil
 }
 
